@@ -53,6 +53,10 @@ func ruleC02(c *Check) {
 	c.escrowInventory("C02.7")
 	c.startRules("C02")
 	c.handlersAddNoRejection("C02.8", "MsgRespondService")
+	// "fee money moves in no other way": the zero-height export returns the fees of the requests still pending (their markers),
+	// not of every stored request; a context is deleted only where no request of it can still be settled
+	c.zeroHeightRefunds("C02.9")
+	c.contextDeleters("C02")
 	c.contextFieldRules("C02.5", map[string]bool{"counts": true})
 	c.paramSetExact("C02.3")
 	c.fractionValidators("C02.3")
